@@ -143,6 +143,14 @@ func c14Run(c *fw.Case, setting string, unset bool, lists [][]string) {
 func c14Listing(c *fw.Case) {
 	os.Setenv("OIDC_SERVER_URL", "http://127.0.0.1:1/never-contacted")
 	defer os.Unsetenv("OIDC_SERVER_URL")
+	// the name of the ROC-admin group can be configured through the environment: every second listing case does
+	rocName := "AetherROCAdmin"
+	if c.Index%2 == 1 {
+		rocName = "SuperAdmin"
+		os.Setenv("AetherROCAdmin", rocName)
+		defer os.Unsetenv("AetherROCAdmin")
+	}
+	c.Distinct("roc_admin_group", rocName)
 	targets := []string{"t1", "t2", "EnterpriseA", "grp"}
 	w, err := world.New(world.Options{Targets: targets, NoControllers: true})
 	if err != nil {
@@ -150,7 +158,7 @@ func c14Listing(c *fw.Case) {
 		return
 	}
 	defer w.Close()
-	alphabet := []string{"t1", "t2", "EnterpriseA", "grp", "t", "t11", "Enterprise", "AetherROCAdmin", "AetherROC", "", "T1"}
+	alphabet := []string{"t1", "t2", "EnterpriseA", "grp", "t", "t11", "Enterprise", "AetherROCAdmin", "AetherROC", "", "T1", "SuperAdmin", "Super", " "}
 	r := c.Rng.Fork("listing")
 	for i := 0; i < 400; i++ {
 		var groups []string
@@ -180,7 +188,7 @@ func c14Listing(c *fw.Case) {
 		var want []string
 		roc := false
 		for _, g := range groups {
-			if g == "AetherROCAdmin" {
+			if g == rocName {
 				roc = true
 			}
 		}
